@@ -1,19 +1,277 @@
-import Proofs.Producer
+import Proofs.CrashRun
+import Proofs.CrashWedge
+import Spec.C01
 
-/-! # C04 — the sequencer node recovers from a crash at any point of block production
-(first theorems; the crash-prefix invariant is under construction) -/
+/-!
+# C04 — the sequencer node recovers from a crash at any point of block production
+
+Model: `Producer.publish` returns the node after the step **and the atomic durable writes it issued, in order**
+(`setMeta "l"` batch cursor, `saveBlock h` early/unsigned, `saveBlock h` final, `setHeight h`, `updateState`);
+a crash after the first `k` of them is `Store.applyPrefix k`; a restart is `Producer.start` (`NewManager`) on
+that image.  The model is compared with the real manager on the image after every atomic write (stream C04).
+
+Vocabulary (`Proofs/Crash*.lean`): `DInv c d` — the **disk invariant** on durable images; `Synced c n` — the
+node's saved state is its in-memory state; `WmOK d` — the two submission watermarks parse; `badCut k ws` — the cut
+after `k` writes falls right after a `setHeight` that is not the last write (after `SetHeight`, before
+`UpdateState`); `Op`/`runOps` — histories of steps and crashes; `Adv c d d'` — image `d'` has the blocks of `d` up to
+`d`'s height and a height between `d.height` and `d.height + 1`.
+
+The full property is **false of the current code** (`C04_recovers_fails`, `wedged_forever`, `badcut_always_wedges`,
+`C04_cache_fails`); everything else is proved (`C04_recovers_partial`).
+-/
 namespace Spec.C04
 open Wire Chain Producer
+open Spec.C01 (ValidChain WellFormed validChain_of_inv wCfg)
 
-/-- a fresh start on an empty disk always succeeds and yields a node satisfying the production invariant -/
-theorem start_on_empty_disk (c : Cfg) (hpos : 1 ≤ c.initialHeight) :
-    ∃ ws, start c {} = .ok (freshNode c, ws) ∧ Inv c (freshNode c) :=
-  ⟨freshWrites c, start_empty c, freshNode_inv c hpos⟩
+/-! ## 1. the disk invariant -/
 
-/-- a crash before the first durable write of a step leaves the image unchanged; after the last one it is the
-image of the completed step -/
-theorem crash_prefix_ends (s : Store) (ws : List SW) :
-    s.applyPrefix 0 ws = s ∧ s.applyPrefix ws.length ws = s.applyAll ws := by
-  simp [Store.applyPrefix, Store.applyAll]
+/-- (a) the empty disk satisfies the disk invariant -/
+theorem C04_disk_inv_empty (c : Cfg) (hpos : 1 ≤ c.initialHeight) : DInv c {} := dinv_empty c hpos
+
+/-- (b) **restart never fails and never replaces a committed block**: on every image satisfying the disk invariant
+`NewManager` succeeds, the node it builds satisfies the production invariant (recorded height = state height, a valid
+chain up to it, state = result of the tip), is in sync with its image, its store is the image plus the writes it
+reports, and every block at or below the image's chain height is what it was. -/
+theorem C04_restart_succeeds {c : Cfg} {d : Store} (hd : DInv c d) :
+    ∃ n ws, start c d = .ok (n, ws) ∧ Inv c n ∧ Synced c n ∧ WmOK n.store ∧ ValidChain c n.store ∧
+      n.store = d.applyAll ws ∧ d.height ≤ n.store.height ∧
+      (∀ h, h ≤ d.height → n.store.getBlock h = d.getBlock h) ∧
+      (d.state ≠ none → ws = [] ∧ n.store = d) := by
+  obtain ⟨n, ws, hst, a1, a2, a3, a4, _, a6, a7⟩ := start_of_dinv hd
+  have hadv := a6 ws.length
+  rw [applyPrefix_all _ _ _ (Nat.le_refl _), ← a4] at hadv
+  refine ⟨n, ws, hst, a1, a2, a3, validChain_of_inv a1, a4, hadv.1, hadv.2.2, fun hne => ?_⟩
+  have := a7 hne
+  subst this
+  exact ⟨rfl, a4⟩
+
+/-- (c) **every crash point of every production step except the bad cut leaves an image satisfying the disk
+invariant** — for every answer of the sequencing and execution layers (error, no batch, empty / non-empty batch,
+regressed time, execution failure), every prior chain, every prefix length (0 = before the first write, `≥ length`
+= after the last). -/
+theorem C04_crash_point_safe {c : Cfg} {n : Node} (hi : Inv c n) (hs : Synced c n) (hw : WmOK n.store)
+    (r : SeqResp) (e : ExecResp) (k : Nat) (hk : badCut k (publish c n r e).2.1 = false) :
+    DInv c (n.store.applyPrefix k (publish c n r e).2.1) :=
+  (publish_prefix hi hs hw r e k).2 hk
+
+/-- … and **every** crash point (the bad cut included) leaves every committed block alone and raises the recorded
+chain height by at most one. -/
+theorem C04_crash_point_keeps_blocks {c : Cfg} {n : Node} (hi : Inv c n) (hs : Synced c n) (hw : WmOK n.store)
+    (r : SeqResp) (e : ExecResp) (k : Nat) :
+    Adv c n.store (n.store.applyPrefix k (publish c n r e).2.1) :=
+  (publish_prefix hi hs hw r e k).1
+
+/-- the step itself keeps the node in sync with its durable image, which is the old image plus exactly the
+reported writes -/
+theorem C04_step_keeps_synced {c : Cfg} {n : Node} (hi : Inv c n) (hs : Synced c n) (hw : WmOK n.store)
+    (r : SeqResp) (e : ExecResp) :
+    Inv c (publish c n r e).1 ∧ Synced c (publish c n r e).1 ∧ WmOK (publish c n r e).1.store ∧
+    (publish c n r e).1.store = n.store.applyAll (publish c n r e).2.1 :=
+  ⟨publish_inv hi r e, publish_synced hi hs hw r e⟩
+
+/-- (d) **crash during recovery**: every prefix image of the writes of `start` itself satisfies the disk invariant
+again (and keeps the committed blocks), so a crash while restarting is followed by a successful restart, to any
+nesting depth. -/
+theorem C04_crash_during_recovery {c : Cfg} {d : Store} (hd : DInv c d) :
+    ∃ n ws, start c d = .ok (n, ws) ∧ ∀ k, DInv c (d.applyPrefix k ws) ∧ Adv c d (d.applyPrefix k ws) := by
+  obtain ⟨n, ws, hst, _, _, _, _, a5, a6, _⟩ := start_of_dinv hd
+  exact ⟨n, ws, hst, fun k => ⟨a5 k, a6 k⟩⟩
+
+/-! ## 2. histories of steps and crashes -/
+
+/-- what the property demands after one more operation (`σ` before, `σ'` after; `base` = durable image before the
+operation, `node` = the running node after it) -/
+structure Recovered (c : Cfg) (σ σ' : RunSt) : Prop where
+  /-- recorded chain height, recorded state and stored blocks agree (`Inv.hs`, `Inv.tip`, `Inv.chain`) -/
+  inv : Inv c σ'.node
+  /-- the node's chain is valid (C01's predicate) -/
+  valid : ValidChain c σ'.node.store
+  /-- the durable state is the node's state -/
+  synced : Synced c σ'.node
+  /-- the node's store is the durable image plus the writes of the operation -/
+  image : σ'.node.store = σ'.base.applyAll σ'.ws
+  /-- durable image before the previous operation → before this one: no height skipped, no committed block replaced
+  (for a crash: `σ'.base` is the image the node restarted from) -/
+  durable : Adv c σ.base σ'.base
+  /-- what the operation itself (a step, or the restart) did to its image: the same -/
+  memory : Adv c σ'.base σ'.node.store
+
+/-- **C04, everything but the bad cut.**  For every history of production steps (any answers) and crashes (any
+prefix of the writes of the last operation — step or restart —, so crashes during recovery at any depth) in which no
+crash is the bad cut, and every next operation: no restart fails (the node is alive), and after the operation the
+node satisfies the production invariant (height = state height = blocks; valid chain), is in sync with its image,
+no height was skipped or repeated and no committed block replaced, neither on disk nor by the restarted node. -/
+theorem C04_recovers_partial (c : Cfg) (hpos : 1 ≤ c.initialHeight) (ops : List Op) (op : Op)
+    (hsafe : NoBadCut c (initSt c) (ops ++ [op])) :
+    ∃ σ σ', runOps c (initSt c) ops = .ok σ ∧ opStep c σ op = .ok σ' ∧ Recovered c σ σ' ∧
+      Ext (initSt c).base σ.base := by
+  obtain ⟨h1, h2⟩ := noBadCut_append hsafe
+  obtain ⟨σ, hr, hg, he⟩ := runOps_good (good_init c hpos) ops h1
+  obtain ⟨σ', hop, hg', ha⟩ := opStep_good hg op (noBadCut_cons (h2 σ hr)).1
+  exact ⟨σ, σ', hr, hop, ⟨hg'.inv, validChain_of_inv hg'.inv, hg'.synced, hg'.store, ha, good_store_adv hg'⟩, he⟩
+
+/-- over a whole history: the durable image only grows — the height never decreases and every block at or below the
+height of an earlier image is still there, unchanged, in every later image -/
+theorem C04_committed_never_replaced (c : Cfg) (hpos : 1 ≤ c.initialHeight) (ops1 ops2 : List Op)
+    (hsafe : NoBadCut c (initSt c) (ops1 ++ ops2)) :
+    ∃ σ1 σ2, runOps c (initSt c) ops1 = .ok σ1 ∧ runOps c (initSt c) (ops1 ++ ops2) = .ok σ2 ∧
+      Ext σ1.base σ2.base ∧ Ext σ1.base σ2.node.store := by
+  obtain ⟨h1, h2⟩ := noBadCut_append hsafe
+  obtain ⟨σ1, hr1, hg1, _⟩ := runOps_good (good_init c hpos) ops1 h1
+  obtain ⟨σ2, hr2, hg2, he⟩ := runOps_good hg1 ops2 (h2 σ1 hr1)
+  exact ⟨σ1, σ2, hr1, by rw [runOps_append _ hr1]; exact hr2, he, he.trans (good_store_adv hg2).ext⟩
+
+/-- after a history without a bad cut, production resumes as in C01: unless a block is waiting at `height + 1`
+(C01's finding), one well-formed answer commits the next block -/
+theorem C04_production_resumes (c : Cfg) (hpos : 1 ≤ c.initialHeight) (ops : List Op)
+    (hsafe : NoBadCut c (initSt c) ops)
+    (hmax : c.maxPending = 0) (hsg : c.signerAddr = c.proposerAddr) (hne : c.proposerAddr ≠ []) :
+    ∃ σ, runOps c (initSt c) ops = .ok σ ∧
+      (σ.node.store.getBlock (σ.node.store.height + 1) = none →
+        ∀ txs ts bd, σ.node.lastState.lastTime ≤ ts →
+          (publish c σ.node (.batch txs ts bd) .ok).2.2 = .ok ∧
+          (publish c σ.node (.batch txs ts bd) .ok).1.store.height = σ.node.store.height + 1) := by
+  obtain ⟨σ, hr, hg, _⟩ := runOps_good (good_init c hpos) ops hsafe
+  exact ⟨σ, hr, fun hnone txs ts bd hts => fresh_commits hg.inv hnone hmax hsg hne txs ts bd hts⟩
+
+/-! ## 3. the full statement and its refutation -/
+
+/-- **The full property**: the same for *every* history (no exclusion), and the node is never left unable to produce:
+two well-formed answers raise the height. -/
+def C04_recovers_full : Prop :=
+  ∀ (c : Cfg) (ops : List Op) (op : Op) (r1 r2 : SeqResp × ExecResp),
+    1 ≤ c.initialHeight → c.signerAddr = c.proposerAddr → c.proposerAddr ≠ [] → c.maxPending = 0 →
+    ∃ σ σ', runOps c (initSt c) ops = .ok σ ∧ opStep c σ op = .ok σ' ∧ Recovered c σ σ' ∧
+      (WellFormed σ'.node r1 → WellFormed σ'.node r2 →
+        σ'.node.store.height < (run c σ'.node [r1, r2]).store.height)
+
+/-- witness: two blocks, then a third step … -/
+def wOps : List Op :=
+  [.step (.batch [[1]] 200 []) .ok, .step (.batch [[2]] 300 []) .ok, .step (.batch [[3]] 400 []) .ok]
+/-- … that crashes after its 4th write (`setMeta`, early save, final save, `setHeight` | `updateState`) -/
+def wCrash : Op := .crash 4
+def wProbe : SeqResp × ExecResp := (.batch [[4]] 500 [], .ok)
+/-- the restarted node of the witness -/
+def wNode : Node :=
+  match runOps wCfg (initSt wCfg) (wOps ++ [wCrash]) with
+  | .ok σ => σ.node
+  | .error _ => default
+
+/-- the witness crash is the bad cut of a five-write step -/
+example : (match runOps wCfg (initSt wCfg) wOps with
+           | .ok σ => (σ.ws.length, badCut 4 σ.ws)
+           | .error _ => (0, false)) = (5, true) := by decide +kernel
+
+/-- **The full property is false of the current code** (kernel-checked): after a crash between `SetHeight` and
+`UpdateState` the restarted node has chain height 3 and state height 2, and two well-formed answers do not raise the
+height.  Replayed on the real node by stream C04 (`C04/…/crash-after-setheight`). -/
+theorem C04_recovers_fails : ¬ C04_recovers_full := by
+  intro h
+  obtain ⟨σ, σ', hr, hop, _, hlive⟩ := h wCfg wOps wCrash wProbe wProbe (by decide) rfl (by decide) rfl
+  have hrun : runOps wCfg (initSt wCfg) (wOps ++ [wCrash]) = .ok σ' := by
+    rw [runOps_append _ hr]; simp only [runOps, hop]
+  have hn : σ'.node = wNode := by unfold wNode; rw [hrun]
+  rw [hn] at hlive
+  have hwf : WellFormed wNode wProbe := by decide +kernel
+  exact absurd (hlive hwf hwf) (by decide +kernel)
+
+/-- the witness node is wedged: chain height one above the state height (also the `Recovered.inv` clause fails) -/
+theorem witness_wedged : wNode.store.height = 3 ∧ wNode.lastState.lastHeight = 2 ∧ Wedged wNode := by
+  have h1 : wNode.store.height = 3 := by decide +kernel
+  have h2 : wNode.lastState.lastHeight = 2 := by decide +kernel
+  have h3 : wNode.store.getBlock 4 = none := by decide +kernel
+  refine ⟨h1, h2, by rw [h1, h2], ?_⟩
+  intro pb hpb
+  rw [h1, h3] at hpb; cases hpb
+
+/-- **Permanently**: a node whose recorded chain height is one above its state height never commits a block again —
+for every sequence of answers the outcome of every step is an error, and height and state stay what they are. -/
+theorem wedged_forever {c : Cfg} {n : Node} (hw : Wedged n) (rs : List (SeqResp × ExecResp))
+    (r : SeqResp) (e : ExecResp) :
+    (publish c (run c n rs) r e).2.2 ≠ .ok ∧ (run c n rs).store.height = n.store.height ∧ Wedged (run c n rs) := by
+  obtain ⟨a, b⟩ := run_wedged (c := c) hw rs
+  exact ⟨(publish_wedged a r e).1, b, a⟩
+
+/-- **the bad cut always wedges** (not only in the witness): for every node in sync with a saved state and every
+committing step, the image without the last write (`updateState`) is a bad cut, `start` succeeds on it, writes
+nothing, and returns a wedged node. -/
+theorem badcut_always_wedges {c : Cfg} {n : Node} (hi : Inv c n) (hs : n.store.state = some n.lastState)
+    (hge : c.initialHeight ≤ n.lastState.lastHeight) (hw : WmOK n.store) (r : SeqResp) (e : ExecResp)
+    (hok : (publish c n r e).2.2 = .ok) :
+    badCut ((publish c n r e).2.1.length - 1) (publish c n r e).2.1 = true ∧
+    ∃ m, start c (n.store.applyPrefix ((publish c n r e).2.1.length - 1) (publish c n r e).2.1) = .ok (m, []) ∧
+      Wedged m :=
+  badcut_wedges hi hs hge hw r e hok
+
+/-! ## 4. cache files -/
+
+/-- a cache file as `loadMapGob` sees it: decodes, does not exist (treated as empty), or was cut short by a crash
+while `SaveToDisk` was rewriting it in place -/
+inductive CacheFile | ok | absent | truncated
+  deriving DecidableEq, Repr
+
+inductive StartErr' | store (e : StartErr) | loadCache
+  deriving DecidableEq, Repr
+
+/-- `NewManager` with its cache files (`block/manager.go:413-416`: any `LoadCache` error is fatal) -/
+def startWithCaches (c : Cfg) (d : Store) (files : List CacheFile) : Except StartErr' (Node × List SW) :=
+  match start c d with
+  | .error e => .error (.store e)
+  | .ok r => if files.any (· == .truncated) then .error .loadCache else .ok r
+
+/-- full claim: restart succeeds for every combination of cache-file states -/
+def C04_cache_full : Prop :=
+  ∀ (c : Cfg) (files : List CacheFile), 1 ≤ c.initialHeight → ∃ r, startWithCaches c {} files = .ok r
+
+/-- **false of the current code**: one truncated file and the node cannot start any more -/
+theorem C04_cache_fails : ¬ C04_cache_full := by
+  intro h
+  obtain ⟨r, hr⟩ := h wCfg [.ok, .truncated] (by decide)
+  simp [startWithCaches, start_empty] at hr
+
+/-- partial: with no truncated file, restart is exactly `start` (so (b) applies) -/
+theorem C04_cache_partial {c : Cfg} {d : Store} (hd : DInv c d) (files : List CacheFile)
+    (hf : ∀ f ∈ files, f ≠ .truncated) :
+    ∃ n ws, startWithCaches c d files = .ok (n, ws) ∧ start c d = .ok (n, ws) ∧ Inv c n := by
+  obtain ⟨n, ws, hst, hi, _⟩ := start_of_dinv hd
+  refine ⟨n, ws, ?_, hst, hi⟩
+  have : files.any (· == .truncated) = false := by
+    rw [List.any_eq_false]; intro f hf'; simpa using hf f hf'
+  simp [startWithCaches, hst, this]
+
+/-! ## non-vacuity -/
+
+/-- a history with a (harmless) crash after the early save of the third block, a crash during the restart, and a
+further step: its hypotheses hold … -/
+def gOps : List Op := wOps ++ [.crash 2, .crash 0, .step (.batch [[5]] 600 []) .ok, .crash 7]
+
+example : NoBadCut wCfg (initSt wCfg) (gOps ++ [.step (.batch [[6]] 700 []) .ok]) := by decide +kernel
+
+/-- … and it ends with three committed blocks on a restarted node -/
+example : (match runOps wCfg (initSt wCfg) gOps with
+           | .ok σ => some (σ.node.store.height, σ.node.lastState.lastHeight)
+           | .error _ => none) = some (3, 3) := by decide +kernel
+
+/-- a concrete node with two committed blocks meets the hypotheses of (b), (c), (d) -/
+example : ∃ σ, runOps wCfg (initSt wCfg) (wOps.take 2) = .ok σ ∧ σ.node.store.height = 2 ∧
+    Inv wCfg σ.node ∧ Synced wCfg σ.node ∧ WmOK σ.node.store ∧ DInv wCfg σ.node.store := by
+  obtain ⟨σ, hr, hg, _⟩ := runOps_good (good_init wCfg (by decide)) (wOps.take 2) (by decide +kernel)
+  refine ⟨σ, hr, ?_, hg.inv, hg.synced, hg.wm, dinv_of_node hg.inv hg.synced hg.wm⟩
+  have : (match runOps wCfg (initSt wCfg) (wOps.take 2) with
+          | .ok σ => σ.node.store.height
+          | .error _ => 0) = 2 := by decide +kernel
+  rw [hr] at this; exact this
+
+/-- the hypotheses of `badcut_always_wedges` are met by the witness (third step of `wOps`) -/
+example : ∃ σ, runOps wCfg (initSt wCfg) (wOps.take 2) = .ok σ ∧ σ.node.store.state = some σ.node.lastState ∧
+    (publish wCfg σ.node (.batch [[3]] 400 []) .ok).2.2 = .ok := by
+  have : (match runOps wCfg (initSt wCfg) (wOps.take 2) with
+          | .ok σ => decide (σ.node.store.state = some σ.node.lastState) &&
+                     decide ((publish wCfg σ.node (.batch [[3]] 400 []) .ok).2.2 = .ok)
+          | .error _ => false) = true := by decide +kernel
+  obtain ⟨σ, hr, _, _⟩ := runOps_good (good_init wCfg (by decide)) (wOps.take 2) (by decide +kernel)
+  rw [hr] at this
+  simp only [Bool.and_eq_true, decide_eq_true_eq] at this
+  exact ⟨σ, hr, this.1, this.2⟩
 
 end Spec.C04
